@@ -256,7 +256,10 @@ def _table_job(job):
 OPS = ["watch a", "watch b", "unwatch a", "unwatch b", "unwatch_all", "update changing", "update same",
        # watch/unwatch calls made from INSIDE a notification (observer a does it in its callback): a client that
        # drops an entity when a value changes
-       "update changing; a: unwatch a", "update changing; a: unwatch b", "update changing; a: unwatch_all"]
+       "update changing; a: unwatch a", "update changing; a: unwatch b", "update changing; a: unwatch_all",
+       # an update made from INSIDE a notification (observer a patches another, always-watched, item Y elsewhere in the
+       # block - what the simulator's set-value delegate does when an observer writes an item)
+       "update changing; a: update Y"]
 
 
 def _observer_bfs(which):
@@ -264,7 +267,11 @@ def _observer_bfs(which):
         host = Host()
         st = getattr(host, which)
         acc = amod.GeckoByteStructAccessor(st, "X", 10, "ALL")
-        st.accessors = {"X": acc}
+        acc_y = amod.GeckoByteStructAccessor(st, "Y", 20, "ALL")
+        st.accessors = {"X": acc, "Y": acc_y}
+        ycalls = []
+        acc_y.watch(lambda sender, old, new: ycalls.append((old, new)))
+        yval = [0]
         calls = {"a": 0, "b": 0}
         order = []   # ('call', k) and ('removed', k) in the order they happen during one notification
         armed = []
@@ -275,7 +282,10 @@ def _observer_bfs(which):
                 order.append(("call", "a"))
                 if armed:
                     act = armed.pop()
-                    if act == "unwatch_all":
+                    if act == "update Y":
+                        yval[0] = (yval[0] + 1) % 256
+                        st.replace_status_block_segment(20, bytes([yval[0]]))
+                    elif act == "unwatch_all":
                         acc.unwatch_all()
                         order.extend(("removed", k) for k in list(model))
                         del model[:]
@@ -317,8 +327,15 @@ def _observer_bfs(which):
                 del order[:]
                 armed.append(op.split(": ")[1])
                 val = (val + 1) % 256
+                ny, y0 = len(ycalls), yval[0]
                 st.replace_status_block_segment(10, bytes([val]))
+                fired = not armed
                 del armed[:]
+                if op.endswith("update Y") and fired and ycalls[ny:] != [(y0, yval[0])]:
+                    return None, (f"after {hist}: the update of item Y made from inside observer a's callback notified Y's "
+                                  f"observer {ycalls[ny:]}, expected exactly [({y0}, {yval[0]})]")
+                if not op.endswith("update Y") and len(ycalls) != ny:
+                    return None, f"after {hist}: item Y's observer was called although Y did not change"
                 for k in ("a", "b"):
                     n = calls[k] - before[k]
                     removed_at = order.index(("removed", k)) if ("removed", k) in order else None
